@@ -229,6 +229,12 @@ Theorem split_pieces_keep_markup : forall t sep keep ps, is_multipart t = true -
 Proof. exact split_pieces_top. Qed.
 Print Assumptions split_pieces_keep_markup.
 
+(* the pieces of split are again texts in normal form: histories continue on them, and every
+   theorem stated for good texts applies to each piece *)
+Theorem split_pieces_good : forall t sep keep ps, good t -> split_c t sep keep = Ok ps -> Forall good ps.
+Proof. exact split_good. Qed.
+Print Assumptions split_pieces_good.
+
 Theorem split_no_empty_piece_refuted : exists t ps, split_c t SepNone None = Ok ps /\ exists p, In p ps /\ rlen p = 0.
 Proof. exact split_no_empty_refuted. Qed.
 Print Assumptions split_no_empty_piece_refuted.
